@@ -31,8 +31,12 @@ func init() {
 	for _, id := range []string{"C08", "C09"} {
 		id := id
 		reg.Register(&reg.Check{ID: id, Level: "model_checking",
-			Run:    func(r *ev.Run) { describe(r); reg.Isolated(r, id, 3*time.Hour) },
-			Worker: func(a []string) int { r := ev.New(id, reg.Tier, "model_checking"); run(r, id); return reg.WorkerExit(r) },
+			Run: func(r *ev.Run) { describe(r); reg.Isolated(r, id, 3*time.Hour) },
+			Worker: func(a []string) int {
+				r := ev.New(id, reg.Tier, "model_checking")
+				run(r, id)
+				return reg.WorkerExit(r)
+			},
 			Replay: func(r *ev.Run, c json.RawMessage) { replayCase(r, id, c) }})
 	}
 }
@@ -45,7 +49,8 @@ type Op struct {
 	Relay  int        `json:"relay_depth"`
 	IAPDs  [][]string `json:"iapds"` // per IA_PD: list of symbolic hints
 	NoCID  bool       `json:"no_client_id,omitempty"`
-	Age    bool       `json:"age,omitempty"` // not a message: all leases run out (time passes)
+	Age    bool       `json:"age,omitempty"`   // not a message: all leases run out (time passes)
+	Timers string     `json:"t1_t2,omitempty"` // "" = 0/0; "t1>t2" = 3600/1800; "max" = ffffffff/ffffffff
 }
 
 type Pool struct {
@@ -66,21 +71,21 @@ type told struct {
 }
 
 type Sys struct {
-	r      *ev.Run
-	id     string
-	pool   Pool
-	base   *big.Int
-	size   *big.Int
-	n      int64
-	h      handler.Handler6
-	hd     *prefix.Handler
-	ghost  map[string][]told // client -> prefixes told, in order first told
-	hist   []Op
-	dead   bool
-	broken bool
-	aged   map[string]bool // ghost: clients whose leases ran out since they were last answered
+	r        *ev.Run
+	id       string
+	pool     Pool
+	base     *big.Int
+	size     *big.Int
+	n        int64
+	h        handler.Handler6
+	hd       *prefix.Handler
+	ghost    map[string][]told // client -> prefixes told, in order first told
+	hist     []Op
+	dead     bool
+	broken   bool
+	aged     map[string]bool // ghost: clients whose leases ran out since they were last answered
 	nclients int
-	rich   bool
+	rich     bool
 }
 
 // duidOf: the client identifiers are chosen adversarially. A is a DUID-EN with a 200-octet
@@ -268,7 +273,13 @@ func (s *Sys) Ops() []Op {
 				ops = append(ops, Op{Client: c, Msg: 1, IAPDs: [][]string{hs}})
 			}
 		}
-		ops = append(ops, Op{Client: c, Msg: 1, IAPDs: [][]string{}}) // no IA_PD at all
+		// T1/T2 as a client may send them (the server must serve the IA_PD whatever they are)
+		ops = append(ops, Op{Client: c, Msg: 5, Timers: "t1>t2", IAPDs: [][]string{{}}})
+		if _, ok := s.resolve(c, "own1"); ok {
+			ops = append(ops, Op{Client: c, Msg: 5, Timers: "t1>t2", IAPDs: [][]string{{"own1"}}})
+			ops = append(ops, Op{Client: c, Msg: 5, Timers: "max", IAPDs: [][]string{{"own1"}}})
+		}
+		ops = append(ops, Op{Client: c, Msg: 1, IAPDs: [][]string{}})       // no IA_PD at all
 		ops = append(ops, Op{Client: c, Msg: 1, IAPDs: [][]string{{}, {}}}) // two IA_PDs
 		ops = append(ops, Op{Client: c, Msg: 1, IAPDs: [][]string{{"free1"}, {"len-page"}, {}}})
 		if s.rich {
@@ -302,7 +313,7 @@ func (s *Sys) Ops() []Op {
 }
 
 func (s *Sys) concretize(o Op) Op {
-	n := Op{Client: o.Client, Msg: o.Msg, Relay: o.Relay, NoCID: o.NoCID, Age: o.Age, IAPDs: [][]string{}}
+	n := Op{Client: o.Client, Msg: o.Msg, Relay: o.Relay, NoCID: o.NoCID, Age: o.Age, Timers: o.Timers, IAPDs: [][]string{}}
 	for _, hs := range o.IAPDs {
 		c := []string{}
 		for _, h := range hs {
@@ -350,7 +361,14 @@ func buildReq(o Op) []byte {
 	}
 	for i, hs := range o.IAPDs {
 		d := binary.BigEndian.AppendUint32(nil, iaidOf(i))
-		d = append(d, 0, 0, 0, 0, 0, 0, 0, 0)
+		switch o.Timers {
+		case "t1>t2":
+			d = append(d, 0, 0, 0x0e, 0x10, 0, 0, 0x07, 0x08)
+		case "max":
+			d = append(d, 0xff, 0xff, 0xff, 0xff, 0xff, 0xff, 0xff, 0xff)
+		default:
+			d = append(d, 0, 0, 0, 0, 0, 0, 0, 0)
+		}
 		for _, h := range hs {
 			ip, ipn, err := net.ParseCIDR(h)
 			if err != nil {
@@ -607,7 +625,7 @@ func (s *Sys) Apply(op Op, live bool) (obs string) {
 				for i, t := range s.ghost[op.Client] {
 					if t.block == blk {
 						found = true
-						if live && t.prefix == rp.cidr && !(tAfter.Add(time.Duration(rp.val+1)*time.Second).After(t.before.Add(time.Duration(t.life) * time.Second))) {
+						if live && t.prefix == rp.cidr && !(tAfter.Add(time.Duration(rp.val+1) * time.Second).After(t.before.Add(time.Duration(t.life) * time.Second))) {
 							s.violate("C09", "lifetime-shortened", fmt.Sprintf("%s re-delegated with valid lifetime %d s, less than what remained of %d s", rp.cidr, rp.val, t.life))
 						}
 						s.ghost[op.Client][i].life, s.ghost[op.Client][i].before = rp.val, tBefore
@@ -653,6 +671,26 @@ func (s *Sys) Apply(op Op, live bool) (obs string) {
 						break
 					}
 				}
+			}
+		}
+	}
+	if live && len(holdBefore) > 0 {
+		// a repeat IA_PD (exact held hint, or no hint) that the reply does not answer at all
+		// is "not answered with P again"
+		answered := map[int]bool{}
+		for _, pd := range pds {
+			answered[iaidIndex(pd.iaid)] = true
+		}
+		for i, hs := range op.IAPDs {
+			if answered[i] {
+				continue
+			}
+			repeat := len(hs) == 0 || (len(hs) == 1 && hs[0] == "::/0")
+			for _, h := range hs {
+				repeat = repeat || holdBefore[h]
+			}
+			if repeat {
+				s.violate("C09", "repeat-not-answered", fmt.Sprintf("client %s holds %v; its IA_PD %x (hints %v, T1/T2 %q) got no IA_PD in the reply (%x)", op.Client, keys(holdBefore), iaidOf(i), hs, op.Timers, out.ToBytes()))
 			}
 		}
 	}
